@@ -28,14 +28,34 @@ def make_copy(dst):
     )
 
 
+SNAP = None   # snapshot of check + rules taken when a selftest starts, so that editing /verif meanwhile is harmless
+
+
+def take_snapshot(base):
+    global SNAP
+    snap = os.path.join(base, "verif-snap-%d" % os.getpid())
+    if os.path.exists(snap):
+        shutil.rmtree(snap)
+    os.makedirs(snap)
+    shutil.copytree(os.path.join(VERIF, "rules"), os.path.join(snap, "rules"), ignore=shutil.ignore_patterns("__pycache__"))
+    shutil.copy(os.path.join(VERIF, "check"), os.path.join(snap, "check"))
+    shutil.copy(os.path.join(VERIF, "known_findings.txt"), os.path.join(snap, "known_findings.txt"))
+    SNAP = snap
+    return snap
+
+
 def run_check(repo, prop, extra_env=None):
     env = dict(os.environ)
     env["VERIF_REPO"] = repo
+    root = SNAP or VERIF
+    if SNAP:
+        env["VERIF_DRIVER"] = os.path.join(VERIF, "driver", "target", "release", "domain-facts")
+        env.setdefault("VERIF_CACHE", os.path.join(VERIF, ".cache"))
     if extra_env:
         env.update(extra_env)
     r = subprocess.run(
-        [os.path.join(VERIF, "check"), prop, "--no-evidence"],
-        cwd=VERIF, env=env, stdout=subprocess.PIPE, stderr=subprocess.STDOUT, text=True,
+        [os.path.join(root, "check"), prop, "--no-evidence"],
+        cwd=root, env=env, stdout=subprocess.PIPE, stderr=subprocess.STDOUT, text=True,
     )
     return r.returncode, r.stdout
 
@@ -157,6 +177,7 @@ def selftest(repo, only):
         if a.startswith("-j"):
             jobs = int(a[2:])
     specs = _specs(args)
+    snap = take_snapshot(os.environ.get("VERIF_SCRATCH_BASE", "/var/tmp"))
     if PROBE is not None:
         specs = [(n, pth, dict(m, _probe=(PROBE or [m.get("property")]))) for n, pth, m in specs]
     bad = 0
@@ -178,6 +199,7 @@ def selftest(repo, only):
                 bad += b
                 print("\n".join(lines), flush=True)
     finally:
+        shutil.rmtree(snap, ignore_errors=True)
         for i in range(jobs):
             shutil.rmtree(os.path.join(os.environ.get("VERIF_SCRATCH_BASE", "/var/tmp"), "verif-selftest-%d-%d" % (os.getpid(), i)), ignore_errors=True)
     print("selftest: %d spec(s), %d problem(s)" % (len(specs), bad))
